@@ -53,6 +53,7 @@ pub proof fn lemma_msum_scale(keys: Seq<Seq<char>>, m1: Map<Seq<char>, F64>, m2:
     ensures msum(keys, m2, env, n) == rmul_s(c, msum(keys, m1, env, n)),
     decreases n,
 {
+    reveal(rmul_s); reveal(rdiv_s);
     if n > 0 {
         lemma_msum_scale(keys, m1, m2, c, env, n - 1);
         let a = rv(m1[keys[n - 1]]); let e = env[keys[n - 1]]; let s = msum(keys, m1, env, n - 1);
@@ -67,6 +68,7 @@ pub proof fn lemma_msum_div(keys: Seq<Seq<char>>, m1: Map<Seq<char>, F64>, m2: M
     ensures msum(keys, m2, env, n) == rdiv_s(msum(keys, m1, env, n), d),
     decreases n,
 {
+    reveal(rmul_s); reveal(rdiv_s);
     if n > 0 {
         lemma_msum_div(keys, m1, m2, d, env, n - 1);
         let a = rv(m1[keys[n - 1]]); let e = env[keys[n - 1]]; let s = msum(keys, m1, env, n - 1);
@@ -78,7 +80,12 @@ pub proof fn lemma_msum_div(keys: Seq<Seq<char>>, m1: Map<Seq<char>, F64>, m2: M
 }
 pub proof fn lemma_distrib(a: real, b: real, x: real) ensures rmul_s(a + b, x) == rmul_s(a, x) + rmul_s(b, x), rmul_s(-a, x) == -rmul_s(a, x)
 {
+    reveal(rmul_s); reveal(rdiv_s);
     assert((a + b) * x == a * x + b * x) by (nonlinear_arith);
     assert((-a) * x == -(a * x)) by (nonlinear_arith);
 }
-pub proof fn lemma_mul_comm_lc(x: real, y: real) ensures x * y == y * x, rmul_s(x, y) == rmul_s(y, x) { assert(x * y == y * x) by (nonlinear_arith); }
+pub proof fn lemma_mul_comm_lc(x: real, y: real) ensures x * y == y * x, rmul_s(x, y) == rmul_s(y, x) { reveal(rmul_s); reveal(rdiv_s); assert(x * y == y * x) by (nonlinear_arith); }
+pub proof fn lemma_mul_sum(c: real, a: real, b: real) ensures rmul_s(c, a + b) == rmul_s(a, c) + rmul_s(c, b)
+{ reveal(rmul_s); assert(c * (a + b) == a * c + c * b) by (nonlinear_arith); }
+pub proof fn lemma_div_sum(a: real, b: real, d: real) requires d != 0real ensures rdiv_s(a + b, d) == rdiv_s(a, d) + rdiv_s(b, d)
+{ reveal(rdiv_s); assert((a + b) / d == a / d + b / d) by (nonlinear_arith) requires d != 0real; }
